@@ -91,7 +91,10 @@ class CircWorld(StateWorld):
 
     def _probe(self, rng):
         n = self.n
-        t = rng.choice(["pauli", "list", "list", "map", "state", "state"] + (["poly"] if self.S.name == "numpy" else []))
+        t = rng.choice(["pauli", "list", "list", "map", "state", "state"] + (["poly", "mono"] if self.S.name == "numpy" else []))
+        if t == "mono":
+            return {"ptype": "mono", "item": rm.pstr((rm.rand_letters(rng, n, False), rng.randrange(4))),
+                    "c": [rng.choice([1.0, -0.5, 2.0]), rng.choice([0.0, 1.5])]}
         if t == "poly":
             L = rng.randrange(1, 5)
             return {"ptype": "poly", "items": [rm.pstr((rm.rand_letters(rng, n, False), rng.randrange(4)))
@@ -350,6 +353,12 @@ class CircWorld(StateWorld):
                     big += [r, junk]
                 return self.S.mk_list(big)[::2], rs, "list"
             return self.S.mk_list(rs), rs, "list"
+        if t == "mono":
+            r = rm.pparse(p["item"])
+            if len(r[0]) != n or self.S.name != "numpy":
+                raise Skip()
+            obj = pc.PauliMonomial(sut.g_of(r[0]), int(r[1])).set_c(complex(*p["c"]))
+            return obj, ([r], [complex(*p["c"])]), "mono"
         if t == "poly":
             rs = sut.parse_list(p["items"])
             if any(len(r[0]) != n for r in rs) or self.S.name != "numpy":
@@ -383,6 +392,8 @@ class CircWorld(StateWorld):
             return pc.CliffordMap(S.clone(obj.gs), S.clone(obj.ps))
         if kind == "poly":
             return pc.PauliPolynomial(S.clone(obj.gs), S.clone(obj.ps)).set_cs(np.array(obj.cs).copy())
+        if kind == "mono":
+            return pc.PauliMonomial(S.clone(obj.g), int(obj.p)).set_c(complex(obj.c))
         return S.mk_state(obj.gs, obj.ps, obj.r)
 
     def observe(self, obj, kind):
@@ -393,6 +404,8 @@ class CircWorld(StateWorld):
         if kind == "poly":
             # a polynomial is its term list: strings/phases transform, coefficients are untouched
             return (sut.list_to_ref(obj), [complex(c) for c in obj.cs])
+        if kind == "mono":
+            return ([sut.pauli_to_ref(obj)], [complex(obj.c)])
         return rm.alpha(obj.gs, obj.ps, obj.r, self.n)
 
     def predict(self, val, kind, gates, direction="fwd"):
@@ -402,7 +415,7 @@ class CircWorld(StateWorld):
             for rg in seq:
                 m = m.apply_map(rg.fwd if direction == "fwd" else rg.bwd, rg.qubits)
             return m
-        if kind == "poly":
+        if kind in ("poly", "mono"):
             terms, cs = val
             return (self.predict(terms, "list", gates, direction), list(cs))
         out = list(val)
@@ -469,6 +482,8 @@ class CircWorld(StateWorld):
             return (np.array(obj.gs).tolist(), (np.array(obj.ps) % 4).tolist())
         if kind == "poly":
             return (np.array(obj.gs).tolist(), (np.array(obj.ps) % 4).tolist(), [complex(c) for c in obj.cs])
+        if kind == "mono":
+            return ([int(v) for v in obj.g], int(obj.p) % 4, complex(obj.c))
         return None
 
     def _roundtrip(self, unit_fwd, unit_bwd, order, probe, ctx):
